@@ -430,6 +430,21 @@ func zeroField(a Atom) bool {
 	return false // c, d: a non-nil pointer / Valid NullString is never zero
 }
 
+// empty reports whether the condition builds no SQL at all: a struct whose
+// fields are all zero. Where/Or of such a value add nothing (an empty Or branch
+// is not "OR true").
+func (c Cond) empty() bool {
+	if c.Kind != "struct" && c.Kind != "structptr" {
+		return false
+	}
+	for _, a := range c.Atoms {
+		if !zeroField(a) {
+			return false
+		}
+	}
+	return true
+}
+
 func (c Cond) eval(r Row) bool {
 	switch c.Kind {
 	case "raw", "pkint", "pkstring", "pkslice", "pkvariadic":
@@ -710,26 +725,39 @@ type sortKey struct {
 }
 
 var orderKeys = map[string][]sortKey{
-	"none":                 nil,
-	"a desc, id":           {{"a", true}, {"id", false}},
-	"a desc | id":          {{"a", true}, {"id", false}}, // two Order calls
-	"id":                   {{"id", false}},
-	"id desc":              {{"id", true}},
-	"pk":                   {{"id", false}}, // clause.OrderByColumn on clause.PrimaryKey
-	"pk desc":              {{"id", true}},
-	"a desc":               {{"a", true}},                // partial
-	"b, a desc":            {{"b", false}, {"a", true}},  // partial
-	"a desc, id (columns)": {{"a", true}, {"id", false}}, // Order(clause.OrderBy{Columns: ...})
-	"a desc, id (expr)":    {{"a", true}, {"id", false}}, // Order(clause.OrderBy{Expression: clause.Expr{...}})
-	"(empty string)":       nil,                          // Order(""): documented no-op of the string form
-	"b | id reorder":       {{"id", false}},              // Order("b") then an OrderByColumn with Reorder: only that one counts
+	"none":                         nil,
+	"a desc, id":                   {{"a", true}, {"id", false}},
+	"a desc | id":                  {{"a", true}, {"id", false}}, // two Order calls
+	"id":                           {{"id", false}},
+	"id desc":                      {{"id", true}},
+	"pk":                           {{"id", false}}, // clause.OrderByColumn on clause.PrimaryKey
+	"pk desc":                      {{"id", true}},
+	"a desc":                       {{"a", true}},                // partial
+	"b, a desc":                    {{"b", false}, {"a", true}},  // partial
+	"a desc, id (columns)":         {{"a", true}, {"id", false}}, // Order(clause.OrderBy{Columns: ...})
+	"a desc, id (expr)":            {{"a", true}, {"id", false}}, // Order(clause.OrderBy{Expression: clause.Expr{...}})
+	"b desc, a (expr via Clauses)": {{"b", true}, {"a", false}},  // Clauses(clause.OrderBy{Expression: ...}), partial
+	"(empty string)":               nil,                          // Order(""): documented no-op of the string form
+	"b | id reorder":               {{"id", false}},              // Order("b") then an OrderByColumn with Reorder: only that one counts
 	// used by the shared-base test only (not drawn by the main generator)
 	"b, id":           {{"b", false}, {"id", false}},
 	"b desc, id desc": {{"b", true}, {"id", true}},
 }
 
 var orderNames = []string{"none", "none", "none", "a desc, id", "a desc | id", "id", "id desc", "pk", "pk desc", "a desc", "b, a desc",
-	"a desc, id (columns)", "a desc, id (expr)", "b | id reorder", "(empty string)"}
+	"a desc, id (columns)", "a desc, id (expr)", "b | id reorder", "(empty string)",
+	"b desc, a (expr via Clauses)", "a desc, id (expr)"}
+
+// keyOrdered reports whether First / Last / FindInBatches on a chain with this
+// ordering are ordered by the primary key alone: chains without an ordering,
+// and chains whose ordering was given in expression form
+// (clause.OrderBy{Expression: ...}) - merging the key column into such a
+// clause drops the expression (OrderBy.MergeClause keeps columns only), so the
+// finders return the lowest / highest key and the batches run in key order,
+// which is what the statement says.
+func keyOrdered(o string) bool {
+	return o == "none" || o == "a desc, id (expr)" || o == "b desc, a (expr via Clauses)"
+}
 
 func orderUsesPKSymbol(o string) bool { return o == "pk" || o == "pk desc" }
 
@@ -744,6 +772,8 @@ func applyOrder(db *gorm.DB, o string) *gorm.DB {
 		return db.Order(clause.OrderBy{Columns: []clause.OrderByColumn{{Column: clause.Column{Name: "a"}, Desc: true}, {Column: clause.Column{Name: "id"}}}})
 	case "a desc, id (expr)":
 		return db.Order(clause.OrderBy{Expression: clause.Expr{SQL: "a desc, id"}})
+	case "b desc, a (expr via Clauses)":
+		return db.Clauses(clause.OrderBy{Expression: clause.Expr{SQL: "b desc, a"}})
 	case "(empty string)":
 		return db.Order("")
 	case "b | id reorder":
@@ -770,6 +800,10 @@ type Case struct {
 	Mode       string `json:"mode"` // all | batch (grid: only Find under key order and FindInBatches)
 	PtrBatch   bool   `json:"ptr_batch"`
 	Prefill    int    `json:"prefill"` // elements the []Rec destination of Find holds beforehand
+	// Or: a top-level OR branch, Where(Conds[0]).Or(Or): matches rows of either. Generated
+	// only with exactly one Where condition, no inline condition, no condition-adding scope
+	// and no preset key (what a condition appended behind an OR branch means is property C02's).
+	Or *Cond `json:"or,omitempty"`
 	// Cols / ColMode: the chain restricts the columns. Cols are the columns that
 	// are read (id is always among them: rows are identified by it and FindInBatches
 	// needs it for its cursor). ColMode args: Select("id", "a"), slice:
@@ -820,6 +854,9 @@ func (c Case) String() string {
 			s = "inline:" + s
 		}
 		parts = append(parts, s)
+	}
+	if c.Or != nil {
+		parts = append(parts, "Or:"+c.Or.String())
 	}
 	if c.Order != "none" {
 		parts = append(parts, "Order("+c.Order+")")
@@ -935,6 +972,18 @@ func newReference(c Case) *reference {
 			if !cd.eval(row) {
 				ok = false
 				break
+			}
+		}
+		if c.Or != nil && !c.Or.empty() {
+			// a Where that builds no SQL leaves the OR branch as the only condition
+			whereBuilt := false
+			for _, cd := range c.Conds {
+				whereBuilt = whereBuilt || !cd.empty()
+			}
+			if whereBuilt {
+				ok = ok || c.Or.eval(row)
+			} else {
+				ok = c.Or.eval(row)
 			}
 		}
 		for _, sc := range c.Scopes {
@@ -1188,6 +1237,10 @@ func (k *runner) chain(src string, inline bool) *gorm.DB {
 		q, a := cd.args()
 		db = db.Where(q, a...)
 	}
+	if k.c.Or != nil {
+		q, a := k.c.Or.args()
+		db = db.Or(q, a...)
+	}
 	if len(k.c.Scopes) > 0 {
 		fns := make([]func(*gorm.DB) *gorm.DB, len(k.c.Scopes))
 		for i, sc := range k.c.Scopes {
@@ -1250,6 +1303,9 @@ func (k *runner) plainSrc() string {
 		if strings.HasPrefix(cd.Kind, "pk") { // a primary-key lookup needs the model as well
 			return "model"
 		}
+	}
+	if k.c.Or != nil && strings.HasPrefix(k.c.Or.Kind, "pk") {
+		return "model"
 	}
 	if k.c.ColMode == "omit" { // Omit is resolved against the model's columns
 		return "model"
@@ -1784,7 +1840,7 @@ func (k *runner) singlePaths() {
 		want *Row
 	}
 	finders := []finder{{"Take", (*gorm.DB).Take, nil}}
-	if k.c.Order == "none" {
+	if keyOrdered(k.c.Order) {
 		finders = append(finders,
 			finder{"First", (*gorm.DB).First, lo},
 			finder{"Last", (*gorm.DB).Last, hi})
@@ -1844,7 +1900,13 @@ var errStop = errors.New("c15: callback asked to stop")
 // batchPaths: FindInBatches against Find under primary-key order and the
 // reference. Domain: no ordering of the chain's own.
 func (k *runner) batchPaths() {
-	if k.c.Order != "none" || k.c.hasScope("page") {
+	if !keyOrdered(k.c.Order) || k.c.hasScope("page") {
+		return
+	}
+	if k.c.Or != nil && harness.OpenClass("C15", "batches-after-or") {
+		// known finding: FindInBatches appends its `key > last` cursor behind the OR branch
+		// (a OR b AND key > last): rows of the first branch come back in every batch
+		evid.Excluded("batches-after-or")
 		return
 	}
 	ss := k.structSrc()
@@ -2076,7 +2138,7 @@ func (k *runner) continuationPaths() {
 				k.failf("%s: %s; got %v, reference window %s", path, msg, got, rowsString(k.ref.window))
 			}
 		}},
-		{"First(&Rec)", k.c.Order == "none" && k.ref.offset == 0, func(path string, db *gorm.DB) {
+		{"First(&Rec)", keyOrdered(k.c.Order) && k.ref.offset == 0, func(path string, db *gorm.DB) {
 			var r Rec
 			single(path, db.First(&r), r, lo)
 		}},
@@ -2309,7 +2371,7 @@ func (k *runner) extraPaths() {
 			got = []Row{fromRec(r)}
 		}
 		k.expectRef(ref, fmt.Sprintf("Find(&Rec{ID: %d})", k.c.PresetID), tx, got, 1, true)
-		if k.fail == "" && k.c.Order == "none" && k.ref.offset == 0 && !k.c.hasScope("page") {
+		if k.fail == "" && keyOrdered(k.c.Order) && k.ref.offset == 0 && !k.c.hasScope("page") {
 			r := Rec{ID: uint(k.c.PresetID)}
 			tx := k.chain(ss, false).First(&r)
 			path := fmt.Sprintf("First(&Rec{ID: %d})", k.c.PresetID)
@@ -2519,6 +2581,9 @@ func classify(c Case, r *reference) (bool, []string) {
 	for _, sc := range c.Scopes {
 		cl = append(cl, "scope:"+sc.Kind)
 	}
+	if c.Or != nil {
+		cl = append(cl, "cond:or-branch")
+	}
 	for _, k := range c.Calls {
 		if k.Kind == "clause" {
 			cl = append(cl, "calls:clause.Limit")
@@ -2540,7 +2605,7 @@ func classify(c Case, r *reference) (bool, []string) {
 	if c.PresetID > 0 {
 		cl = append(cl, "dest:preset-primary-key")
 	}
-	if c.StopAt > 0 && c.Order == "none" {
+	if c.StopAt > 0 && keyOrdered(c.Order) {
 		cl = append(cl, "batches:callback-error")
 	}
 	switch {
@@ -2605,8 +2670,11 @@ func classify(c Case, r *reference) (bool, []string) {
 		if !r.windowed() {
 			cl = append(cl, "path:find-then-count")
 		}
-		if c.Order == "none" {
+		if keyOrdered(c.Order) {
 			cl = append(cl, "path:batches+first+last")
+			if c.Order != "none" {
+				cl = append(cl, "path:batches+first+last-after-expression-order")
+			}
 		}
 		if !r.windowed() {
 			cl = append(cl, "path:count")
@@ -2958,7 +3026,7 @@ func genCase(rt *rapid.T) Case {
 			sc.K = rapid.IntRange(1, 8).Draw(rt, "scope-limit")
 			sc.O = rapid.IntRange(0, 4).Draw(rt, "scope-offset")
 		}
-		if sc.Kind == "order" && c.Order == "a desc, id (expr)" {
+		if sc.Kind == "order" && strings.Contains(c.Order, "(expr") {
 			continue // an ordering added to an OrderBy that carries an Expression: which one wins is not stated
 		}
 		if !c.hasScope(sc.Kind) {
@@ -2987,6 +3055,18 @@ func genCase(rt *rapid.T) Case {
 		}
 	}
 	c.StopAt = rapid.SampledFrom([]int{0, 0, 0, 1, 2, 3}).Draw(rt, "stop-at")
+	if len(c.Conds) == 1 && rapid.IntRange(0, 2).Draw(rt, "or-branch") == 0 {
+		or := genCond(rt, maxID)
+		c.Or = &or
+		c.Inline, c.PresetID = false, 0
+		var keep []Scope
+		for _, sc := range c.Scopes {
+			if sc.Kind != "cond" && sc.Kind != "inspect" {
+				keep = append(keep, sc)
+			}
+		}
+		c.Scopes = keep
+	}
 	c.ContLimit = rapid.IntRange(1, 6).Draw(rt, "cont-limit")
 	c.ContOffset = rapid.IntRange(0, 4).Draw(rt, "cont-offset")
 	return c
@@ -3064,5 +3144,37 @@ func TestC15WitnessPluckPointerNull(t *testing.T) {
 	}
 	if len(ds) != 2 || ds[0] != nil || ds[1] == nil || *ds[1] != "x" {
 		t.Errorf("C15 violated: Pluck(\"d\", &[]*string) over values NULL,\"x\" did not return [nil \"x\"]")
+	}
+}
+
+// Where(a).Or(b).FindInBatches: the `key > last` cursor of the second and later
+// batches is appended behind the OR branch (a OR b AND key > last), so the rows
+// of the first branch are fetched again in every batch: with a full first batch
+// the call never ends. The callback stops it after more rows than the table holds.
+func TestC15WitnessBatchesAfterOr(t *testing.T) {
+	rows := gridRows(6) // a = 0,1,2,3,0,1 in key order
+	d := testdb.Open(testdb.Options{})
+	defer d.Close()
+	if err := insertRows(d, rows); err != nil {
+		t.Fatalf("harness: %v", err)
+	}
+	var viaFind []Rec
+	if err := d.Where("a = ?", 0).Or("a = ?", 1).Order("id").Find(&viaFind).Error; err != nil || len(viaFind) != 4 {
+		t.Fatalf("harness: Find returns %d rows (%v), want 4", len(viaFind), err)
+	}
+	var (
+		dest []Rec
+		got  []Row
+	)
+	res := d.Where("a = ?", 0).Or("a = ?", 1).FindInBatches(&dest, 1, func(tx *gorm.DB, batch int) error {
+		if len(got)+len(dest) > len(rows) {
+			return errRunaway
+		}
+		got = append(got, recsToRows(dest)...)
+		return nil
+	})
+	if res.Error != nil || rowsString(got) != rowsString(recsToRows(viaFind)) {
+		t.Errorf("C15 violated: Where(a = 0).Or(a = 1).FindInBatches(batch=1) delivered %s (error %v), Find under key order returns %s",
+			rowsString(got), res.Error, rowsString(recsToRows(viaFind)))
 	}
 }
